@@ -22,6 +22,13 @@ def dec(tag):
 class O: pass
 '''
 FORMS = [
+ "def gen():\n    for i in (1, 2, 3, 4):\n        log.append(('gen', i))\n        yield i\ng = gen()\nprint(2 in g, log)\nprint(next(g), 9 in g, log)\nprint(next(g, 'end'))",
+ "def gen():\n    for i in (1, 2, 3):\n        log.append(('gen', i))\n        yield i\nprint(u(1) in gen(), u(2) not in gen(), u(7) in gen(), log)",
+ "it = iter([u(1), u(2), u(3), u(4)])\nprint(u(2) in it, list(it), log)",
+ "class S:\n    def __getitem__(self, i):\n        log.append(('item', i))\n        if i > 3: raise IndexError\n        return i * 10\nprint(10 in S(), 25 in S(), 20 not in S(), log)",
+ "class I:\n    def __iter__(self):\n        log.append('iter')\n        return iter([t(1), t(2), t(3)])\nprint(t(1) in I(), t(9) in I(), log)",
+ "def gen():\n    for i in (1, 2, 3):\n        log.append(('gen', i))\n        yield i\nprint(u(0) < u(1) in gen() != u(5), log)",
+ "m = map(u, [1, 2, 3])\nprint(1 in m, list(m), log)\nz = zip([u(1), u(2)], [u(3), u(4)])\nprint((1, 3) in z, list(z), log)",
  # mixed int / float / bool comparisons with equal and unequal values, every operator, both operand orders; chains
  "vals = [0, 1, 2, -1, True, False, 0.0, -0.0, 1.0, 2.0, 2.5, -1.0]\nfor op in ('<', '<=', '==', '!=', '>', '>='):\n    print(op, ''.join('1' if eval('a %s b' % op, {'a': a, 'b': b}) else '0' for a in vals for b in vals))",
  "print(u(2) <= 2.0 <= u(3), u(2) >= 2.0 >= u(3), 2.0 <= u(2) < 2.5 <= u(2), u(0) <= -0.0 <= u(1), u(1) <= True <= 1.0 <= u(1), log)",
